@@ -517,11 +517,12 @@ def syl_starts_with(a, b):
 
 def expected_candidates_prefix(sys_, usr, key):
     # a trie FILE under the prefix lookup (the fuzzy engine): every key of the same length that matches syllable by
-    # syllable, keys in ascending order of their codes, each key's phrases in file order; a text is listed once
+    # syllable, keys in the order of the file's sibling records - the order the setup lists them in (ascending codes
+    # for a file as TrieBuilder writes it) -, each key's phrases in file order; a text is listed once
     q = text_key(key)
     keys = [k for k in sys_ if len(text_key(k)) == len(q) and all(x != 0 and syl_starts_with(x, y) for x, y in zip(text_key(k), q))]
     out = []
-    for k in sorted(keys, key=text_key):
+    for k in keys:
         out += [t for t in sys_[k] if t not in out]
     out += [t for t in sorted(usr.get(key, {}), key=text_key) if t not in out]
     return out
@@ -536,7 +537,7 @@ def c07(cases, res):
         # the phonetic layout in effect (setup line LAYOUT, `layout k` ops): Hsu (1) and ET26 (5) add the words of a
         # syllable's alternative readings to its one-syllable list ("defined to include that reading's characters")
         layout = 0
-        capi = any(l == "CAPI" for l in case["setup"])
+        capi = any(l.split(" ")[0] == "CAPI" for l in case["setup"])
         for l in case["setup"]:
             if l.startswith("LAYOUT "):
                 layout = int(l.split()[1])
